@@ -206,12 +206,12 @@ class DocGen:
             self.st("num.dbl_long")
         elif r < 0.86:  # structured decimals: (integer digits) x (leading fraction zeros) x (significant fraction digits) x (exponent form)
             ip = rng.choice(["0", "0", str(rng.randrange(1, 10)), "".join(rng.choice("0123456789") for _ in range(rng.choice([2, 9, 16, 22]))).lstrip("0") or "0"])
-            z = "0" * rng.choice([0, 0, 1, 3, 8, 15, 22, 23, 24, 30, 40])
+            z = "0" * rng.choice([0, 0, 1, 3, 8, 15, 22, 23, 24, 30, 40, 310, 330, 400])
             sig = "".join(rng.choice("0123456789") for _ in range(rng.choice([1, 1, 2, 5, 9, 14, 15, 16, 17, 20])))
             t = ip + "." + z + sig
             e = rng.random()
             if e < 0.25:
-                t += rng.choice("eE") + rng.choice(["", "+", "-"]) + str(rng.choice([0, 1, 7, 22, 23, 40, 100, 300]))
+                t += rng.choice("eE") + rng.choice(["", "+", "-"]) + str(rng.choice([0, 1, 7, 22, 23, 40, 100, 300, 308, 323, 324, 330, 400, 999, 4000]))
             if rng.random() < 0.3:
                 t = "-" + t
             self.st("num.dbl_structured")
